@@ -10,6 +10,7 @@ import (
 	"net/http/httptest"
 	realos "os"
 	realfp "path/filepath"
+	"runtime"
 	"runtime/debug"
 	"sort"
 	"strings"
@@ -76,6 +77,63 @@ type ctask struct {
 	transportHops int
 }
 
+// Which task a goroutine belongs to is looked up by goroutine id in a small
+// table that is written and read in //go:norace functions only: no race
+// report, and - unlike a mutex or an atomic - no happens-before edge between
+// tasks that could hide a race on library state. Every goroutine only ever
+// looks for its own id, which it stored itself.
+var curGoid [16]uint64
+
+//go:norace
+func curSet(slot int, g uint64) { curGoid[slot] = g }
+
+//go:norace
+func curFind(g uint64) int {
+	for i := range curGoid {
+		if curGoid[i] == g {
+			return i
+		}
+	}
+	return -1
+}
+
+//go:norace
+func curReset() {
+	for i := range curGoid {
+		curGoid[i] = 0
+	}
+}
+
+func goid() uint64 {
+	var buf [64]byte
+	n := runtime.Stack(buf[:], false)
+	// "goroutine 123 ["
+	var id uint64
+	for _, ch := range buf[10:n] {
+		if ch < '0' || ch > '9' {
+			break
+		}
+		id = id*10 + uint64(ch-'0')
+	}
+	return id
+}
+
+// gctxOfCaller returns the scheduling identity of the calling goroutine.
+func gctxOfCaller(tasks *[8]*ctask) (*ctask, *gctx) {
+	slot := curFind(goid())
+	if slot < 0 {
+		return nil, nil
+	}
+	t := tasks[slot%8]
+	if t == nil {
+		return nil, nil
+	}
+	if slot >= 8 {
+		return t, t.up
+	}
+	return t, t.caller
+}
+
 type taskKey struct{}
 
 func taskOf(ctx context.Context) *ctask {
@@ -94,42 +152,10 @@ type concSeam struct {
 	shared  *ctask
 }
 
-func (s *concSeam) owner(p string) *ctask {
-	rel := strings.TrimPrefix(p, s.root)
-	if len(rel) >= 3 && rel[0] == '/' && rel[1] == 't' && rel[2] >= '0' && rel[2] <= '7' {
-		if t := s.tasks[rel[2]-'0']; t != nil {
-			return t
-		}
-	}
-	// members of the shared collection are owned by name: /shared/t<i>-...
-	const sh = "/shared/t"
-	if strings.HasPrefix(rel, sh) && len(rel) > len(sh)+1 && rel[len(sh)] >= '0' && rel[len(sh)] <= '7' && rel[len(sh)+1] == '-' {
-		if t := s.tasks[rel[len(sh)]-'0']; t != nil {
-			return t
-		}
-	}
-	return s.shared
-}
-
-// ownerOf finds the task a call belongs to from either of its paths.
-func (s *concSeam) ownerOf(c *simos.Call) *ctask {
-	if t := s.owner(c.Path); t != nil {
-		return t
-	}
-	if c.Path2 != "" {
-		return s.owner(c.Path2)
-	}
-	return nil
-}
-
 func (s *concSeam) Before(c *simos.Call) *simos.Inject {
-	t := s.ownerOf(c)
+	t, g := gctxOfCaller(&s.tasks)
 	if t == nil {
 		return nil
-	}
-	g := t.caller
-	if t.uploadActive {
-		g = t.up
 	}
 	t.diskCalls++
 	g.yield()
@@ -140,8 +166,7 @@ func (s *concSeam) Before(c *simos.Call) *simos.Inject {
 }
 
 func (s *concSeam) After(c *simos.Call, err error) {
-	// modification times come from the fake clock whoever made the call (an
-	// upload's temporary file carries no task name)
+	// modification times come from the fake clock
 	if c.Writable {
 		switch c.Op {
 		case "open", "write", "close", "truncate", "mkdir":
@@ -151,13 +176,9 @@ func (s *concSeam) After(c *simos.Call, err error) {
 			}
 		}
 	}
-	t := s.ownerOf(c)
+	t, g := gctxOfCaller(&s.tasks)
 	if t == nil {
 		return
-	}
-	g := t.caller
-	if t.uploadActive {
-		g = t.up
 	}
 	es := "ok"
 	if err != nil {
@@ -181,7 +202,14 @@ type concTransport struct {
 }
 
 func (tr *concTransport) gctxFor(t *ctask) *gctx {
-	if t.uploadActive {
+	g := goid()
+	slot := curFind(g)
+	if slot < 0 {
+		// first contact of a goroutine the library started (the upload goroutine)
+		slot = 8 + t.idx
+		curSet(slot, g)
+	}
+	if slot >= 8 {
 		return t.up
 	}
 	return t.caller
@@ -336,6 +364,38 @@ func (t *ctask) normResponse(r *model.Response) string {
 	return fmt.Sprintf("%d %s %q", r.Status, strings.Join(hs, " "), body)
 }
 
+// ownMembers renders the part of a multi-status that concerns /shared itself
+// and the members named t<idx>-*.
+func (t *ctask) ownMembers(r *model.Response) string {
+	ms, err := model.ParseMultiStatus(r.Body)
+	if err != nil {
+		return fmt.Sprintf("%d unreadable: %v", r.Status, err)
+	}
+	var out []string
+	own := fmt.Sprintf("/shared/t%d-", t.idx)
+	for _, resp := range ms.Responses {
+		h := model.Normalise(model.ParseHref(resp.Hrefs[0]).Path).Path
+		if h != "/shared" && !strings.HasPrefix(h, own) {
+			continue
+		}
+		var ps []string
+		for _, p := range resp.Props {
+			v := renderElem(p.Elem)
+			switch p.Name {
+			case "{DAV:}getetag":
+				v = t.tag(v)
+			case "{DAV:}getlastmodified":
+				v = "T"
+			}
+			ps = append(ps, fmt.Sprintf("%d:%s=%s", p.Status, p.Name, v))
+		}
+		sort.Strings(ps)
+		out = append(out, h+" "+strings.Join(ps, " "))
+	}
+	sort.Strings(out)
+	return fmt.Sprintf("%d %s", r.Status, strings.Join(out, " | "))
+}
+
 func normErr(err error) string {
 	if err == nil {
 		return "nil"
@@ -361,6 +421,7 @@ func runTasks(plan *Plan, tasks []TaskPlan, base string, log *Log) (*concResult,
 		return nil, "cannot create sandbox: " + err.Error()
 	}
 	defer w.Close()
+	curReset()
 	seam := &concSeam{root: w.Root, sandbox: w.Sandbox}
 	slots := plan.Slots
 	if slots <= 0 {
@@ -465,6 +526,7 @@ func runTasks(plan *Plan, tasks []TaskPlan, base string, log *Log) (*concResult,
 }
 
 func runTask(tp *TaskPlan, t *ctask, client *webdav.Client, tr *concTransport) {
+	curSet(t.idx, goid())
 	ctx := context.WithValue(context.Background(), taskKey{}, t)
 	g := t.caller
 	observe := func(format string, a ...interface{}) {
@@ -562,6 +624,12 @@ func runTask(tp *TaskPlan, t *ctask, client *webdav.Client, tr *concTransport) {
 		resp, pan := tr.serve(t, req)
 		if pan != "" {
 			observe("%d %s PANIC %s", i, st.Method, firstLines(pan, 3))
+			continue
+		}
+		if st.Kind == "shared-listing" {
+			// a listing of the shared collection: what it says about THIS task's
+			// members must be what it says when the task runs alone
+			observe("%d %s (own members) = %s", i, st.Method, t.ownMembers(resp))
 			continue
 		}
 		observe("%d %s = %s", i, st.Method, t.normResponse(resp))
